@@ -544,6 +544,6 @@ pub fn def() -> PropertyDef {
         level: "exploration",
         rule: "sessions of 1..4 protocol runs (public key, relinearization keys [two rounds, step2 interleaved per party], secret-key reveal, collective decryption, key switch to a fresh collective key, public-key switch, cipher->shares, shares->cipher, shares round trip) among n = 2..6 parties over BFV/BGV/CKKS contexts with 2..4 primes, N = 4..64 (thorough 512), inputs at generated levels and representations, encrypted under the summed key or the collective public key; the messages of every round delivered in a generated order, optionally one message withheld. exhaustive: every delivery order for n = 2 and 3 (quick: every 7th for n = 3) and every single withheld message, per protocol and scheme at N = 8. Oracle: outputs equal across parties; collective keys satisfy k0 + k1*s [- P*s^2] = small error for s = sum of the secret keys (added up by the harness) and work under an ordinary decryptor for s; decrypted plaintexts equal the encrypted ones whenever the worst-case noise model (secret norm n) stays below the modulus; shares add up to the slots mod t; a party with an incomplete inbox refuses, everybody else finishes. non-trivial: something was asserted and (n >= 3 or the delivery order is not the canonical one or a message was withheld).",
         assumptions: vec!["noise model DESIGN.md §4 with ||s|| <= n and multiparty key-switching-key error 2 n B (N n + 1)", "shares->cipher is observed at party 0, the aggregating party of the documented usage"],
-        subs: vec![Sub::enumerate("all_orders_small_n", exhaustive, session), Sub::prop("random_sessions", 40_000, 800_000, 0.4, mp_case, session)],
+        subs: vec![Sub::enumerate("all_orders_small_n", exhaustive, session), Sub::prop("random_sessions", 200_000, 1_000_000, 0.4, mp_case, session)],
     }
 }
